@@ -23,6 +23,7 @@ let parse_op (tok : string) : op =
   | 'V' -> OWrite2 (parse_lens arg)
   | 'X' -> OCloseSend
   | 'K' -> OConnect
+  | 'Z' -> OCloseReset
   | 'N' -> OWriteNomem (parse_lens arg)       (* uv_write while uv__malloc fails *)
   | 'M' -> OWrite2Nomem (parse_lens arg)      (* uv_write2 (send handle) while uv__malloc fails *)
   | _ -> failwith ("bad op " ^ tok)
@@ -94,6 +95,9 @@ let case (line : string) : string =
             add (Printf.sprintf "f%d " i)
         | EFdFail id -> add (Printf.sprintf "g%d " (int_of_nat id))
         | EConnect c -> add (Printf.sprintf "K:%s " (string_of_z c))
+        | EReset c ->                     (* refused: nothing changed, SO_LINGER is still off (the harness reads it back) *)
+            add (Printf.sprintf "z:%s " (string_of_z c));
+            if string_of_z c <> "0" then add "l:0 "
         | EReopen -> ()                   (* ghost: nothing the implementation shows *)
         | EOrphan ids ->                  (* the harness reads write_completed_queue after an accepted connect *)
             add ("o" ^ String.concat "," (List.map (fun i -> string_of_int (int_of_nat i)) ids) ^ " ")) (trace s);
